@@ -74,3 +74,51 @@ def export_bytes_via(f, channel, scratch):
         with open(p, "rb") as fh:
             return fh.read()
     raise ValueError(channel)
+
+
+def reachable_bloom(P, rng, est, rate, hf, keys, counting=False, amounts=(1,)):
+    """a Bloom filter in a reachable state: fed by add(), possibly the result of a union / intersection with another fed
+    filter (its element count is then an estimate, possibly 0 with bits set), possibly reloaded or cleared and re-fed.
+    Returns (filter, description list)."""
+    cls = P.CountingBloomFilter if counting else P.BloomFilter
+
+    def fed(n):
+        f = cls(est, rate, **kw_hash(hf))
+        ks = [rng.choice(keys) for _ in range(n)]
+        for k in ks:
+            if counting:
+                f.add(k, rng.choice(amounts))
+            else:
+                f.add(k)
+        return f, ks
+
+    f, ks = fed(rng.randint(0, 10))
+    desc = [("add", ks)]
+    for _ in range(rng.choice([0, 0, 1, 1, 2])):
+        r = rng.random()
+        if r < 0.3:
+            g, ks2 = fed(rng.randint(0, 6))
+            u = f.union(g)
+            if u is not None and u.elements_added >= 0:
+                f = u
+                desc.append(("union", ks2))
+        elif r < 0.65:
+            g, ks2 = fed(rng.randint(0, 4))
+            for k in ks[: rng.randint(0, 3)]:
+                g.add(k)
+            i = f.intersection(g)
+            if i is not None and i.elements_added >= 0:
+                f = i
+                desc.append(("intersection", ks2))
+        elif r < 0.8:
+            if f.elements_added >= 0:
+                f = cls.frombytes(bytes(f), **kw_hash(hf)) if rng.random() < 0.5 else cls(hex_string=f.export_hex(), **kw_hash(hf))
+                desc.append(("reload",))
+        elif r < 0.9:
+            f.clear()
+            desc.append(("clear",))
+        else:
+            k = rng.choice(keys)
+            f.add(k)
+            desc.append(("add", [k]))
+    return f, desc
